@@ -229,10 +229,11 @@ class C06Runner:
 			return
 		if any(ev[0] == 'sleep' for ev in trace):
 			self.bump('probes', 'Writer retry path taken (virtual sleep)')
-		expect_fail = bool(fault and int(fault.get('count', 1)) >= 2 and rec_a.get('fault_fired'))
+		killed = bool(fault and fault['kind'].startswith('crash@') and rec_a['status'] == 'crashed')
+		expect_fail = killed or bool(fault and int(fault.get('count', 1)) >= 2 and rec_a.get('fault_fired'))
 		if rec_a['status'] != 'ok':
 			if expect_fail:
-				self.bump('probes', 'run aborted by a persistent write fault')
+				self.bump('probes', 'run killed at a file-operation boundary of the writer' if killed else 'run aborted by a persistent write fault')
 				# progress once faults stop: one more fault-free run converges to the forced result
 				rec_c = self.run(force)
 				out_c = self.proj.outputs()
@@ -365,7 +366,7 @@ def run_op(force: bool = False, fault: dict[str, Any] | None = None) -> dict[str
 
 class C06(Engine):
 	prop = 'C06'
-	rule = ('case = one history (edit / run / run -f / delete-output / upgrade / touch, writer faults EACCES x1 or x2) over a generated pool with a drawn output_dirs '
+	rule = ('case = one history (edit / run / run -f / delete-output / upgrade / touch, writer faults EACCES x1 or x2, kill between two file operations of the writer) over a generated pool with a drawn output_dirs '
 		'mapping and output_language; at every run the same snapshot is also run forced and the two file sets, the write log (exactly the outputs whose stored header differs or '
 		'that are missing), header read-back and path injectivity are compared. distinct_nontrivial = distinct op-kind sequences with a state change (content edit, deleted output, '
 		'version upgrade) between two judged runs')
@@ -404,6 +405,11 @@ class C06(Engine):
 				# a transient lock on an existing output while its module shrinks (long -> short text) and while it grows
 				c([run_op(), {'op': 'edit', 'm': top, 'v': 2}, run_op(), {'op': 'edit', 'm': top, 'v': 0}, run_op(fault={'kind': 'eacces@open', 'pick': 0.0, 'count': 1}), run_op()])
 				c([run_op(), {'op': 'edit', 'm': leaf, 'v': 2}, run_op(fault={'kind': 'eacces@open', 'pick': 0.0, 'count': 1}), {'op': 'edit', 'm': leaf, 'v': 1}, run_op(fault={'kind': 'eacces@open', 'pick': 0.0, 'count': 1}), run_op()])
+				# the process is killed between two file operations of the writer (never inside one): after the truncating open, right after the
+				# complete write, after the close -- while an output shrinks / grows; the next fault-free run must converge to the forced result
+				for kill in ({'kind': 'crash@open', 'pick': 0.0}, {'kind': 'crash@write', 'kmode': 'full', 'pick': 0.0}, {'kind': 'crash@between-files', 'pick': 0.0}):
+					c([run_op(), {'op': 'edit', 'm': top, 'v': 2}, run_op(), {'op': 'edit', 'm': top, 'v': 0}, run_op(fault=kill), run_op()])
+				c([run_op(), {'op': 'edit', 'm': leaf, 'v': 2}, run_op(True, fault={'kind': 'crash@write', 'kmode': 'full', 'pick': 0.6}), run_op()])
 		# a target whose dotted path is a substring of an earlier target's path (src.a after src.ab / src.a_b): each header must record its own module
 		rngs = random.Random(6)
 		sub = pools.gen_pool(rngs, shape='pairs', n_variants=3, allow_invalid=False, names=['src.ab', 'src.a_b', 'src.a', 'src.d'], swap_p=0.0, box_p=0.0)
@@ -461,6 +467,9 @@ class C06(Engine):
 				ops.append({'op': 'edit', 'm': m, 'v': rng.randrange(len(pool['variants'][m])), 'dt': rng.choice([1000, 10**9, 3600 * 10**9])})
 			elif r in ('run', 'runf'):
 				fault = {'kind': 'eacces@open', 'pick': round(rng.random(), 4), 'count': rng.choice([1, 1, 2])} if faulty and rng.random() < 0.4 else None
+				if fault and rng.random() < 0.35:
+					fault = rng.choice([{'kind': 'crash@open'}, {'kind': 'crash@write', 'kmode': 'full'}, {'kind': 'crash@between-files'}])
+					fault['pick'] = round(rng.random(), 4)
 				ops.append(run_op(r == 'runf', fault))
 			elif r == 'del':
 				ops.append({'op': 'delete-output', 'm': rng.choice(mods)})
